@@ -5,3 +5,15 @@ void free_object (object_t *ob, const char *why) { (void) why; ob->ref--; VERIF_
 void dealloc_object (object_t *o, const char *f) { (void) o; (void) f; VERIF_UNREACHABLE ("dealloc_object"); }
 /* the only error handler a T_ERROR_HANDLER slot can hold in the step harnesses (function pointer calls are restricted to it) */
 int vm_error_handler_runs; void vm_error_handler (void) { vm_error_handler_runs++; }
+#ifdef CALL_INHERITED
+/* '::' call jobs (C07): frame construction is decided by C04's frame_setup jobs; here it is a recording stub so that the
+   job isolates the opcode's own bookkeeping (program switch, function / variable offsets, saved caller frame) */
+int verif_sif_calls, verif_sif_index;
+compiler_function_t *setup_inherited_frame (int index)
+{
+  static compiler_function_t F;
+  verif_sif_calls++; verif_sif_index = index;
+  F.name = "f"; F.address = 2;
+  return &F;
+}
+#endif
